@@ -11,7 +11,7 @@ CONSTANTS
   MaxOps = 0
   ClockUnderLock = FALSE
   Interleave = FALSE
-  WithTraffic = FALSE
+  WithTraffic = TRUE
   WithUnknownStop = TRUE
   LocMaps <- CanonLocMaps
 INVARIANTS TypeOK NonNegativeIncrement InWindowKey InWindowLoc LocSumEqKeySum Conservation RefCountMatches StartNotInFuture SeqExact
